@@ -107,11 +107,12 @@ class VList(V):
 
 class VSeq(V):
     """Immutable sequence of symbolic length: elem(idx_term) -> V."""
-    __slots__ = ("n", "elem")
+    __slots__ = ("n", "elem", "last")
 
-    def __init__(self, n, elem):
+    def __init__(self, n, elem, last=None):
         self.n = n
         self.elem = elem
+        self.last = last  # (n0, prefix elem fn, appended item): lets a loop treat the appended item separately
 
 
 class VRange(V):
